@@ -632,10 +632,16 @@ theorem phApply_coherent (s : PHState ℝ) (op : PHOp) (hop : op.ValidAt s) (h :
   | toHoomd c0 c1 => exact ph_setCentroid_coherent _ c1 c0
 
 /-- **C03 (Polyhedron): after every history of size / centre assignments, `diagonalize_inertia`
-and `to_hoomd` calls the stored plane equations are those of the current vertices.**
-(`volume`, `surface_area`, centroid and inertia are computed on demand from vertices, faces and
-these equations: nothing else can lag.) -/
-theorem ph_coherent_history (s : PHState ℝ) (ops : List PHOp) (h : s.Coherent) (hv : PHValidRun s ops) :
+and `to_hoomd` calls, of any length, the stored plane equations are those of the current
+vertices.** (`volume`, `surface_area`, centroid and inertia are computed on demand from vertices,
+faces and these equations: nothing else can lag.)
+PARTIAL: positivity of the getter a size setter divides by is a hypothesis on every step of the
+run (`PHValidRun`), not an invariant derived from the initial state: that the on-demand volume
+`Σ(−d)A/3` and area stay positive under the translations and rotations of a history needs
+closedness of the face polygons and the rotation law of the projected shoelace area, which are
+not part of this state machine (for `ConvexPolyhedron`, `Polygon` and the spheropolytopes the
+corresponding history theorems carry positivity as an invariant). -/
+theorem ph_coherent_history_partial (s : PHState ℝ) (ops : List PHOp) (h : s.Coherent) (hv : PHValidRun s ops) :
     (phRun s ops).Coherent := by
   unfold phRun
   induction ops generalizing s with
@@ -731,16 +737,16 @@ theorem pgSim_trans {a b c : PGState ℝ} (h1 : PGSim a b) (h2 : PGSim b c) : PG
   apply List.map_congr_left
   intro v _; cases v; cases t1; cases t2; ext <;> simp <;> ring
 
-/-- a size getter used by a setter returns a positive number in the state it is used in -/
-def PGOp.ValidAt (s : PGState ℝ) : PGOp → Prop
-  | .setArea _ => 0 < s.area
-  | .setPerimeter _ => 0 < s.perimeter
+/-- a radius getter returns a positive number -/
+def PGOp.Valid : PGOp → Prop
   | .setRadius cur _ => 0 < cur
   | _ => True
 
-def PGValidRun : PGState ℝ → List PGOp → Prop
-  | _, [] => True
-  | s, op :: ops => op.ValidAt s ∧ PGValidRun (pgApply s op) ops
+/-- the polygon lies in the plane of its stored normal and is not degenerate -/
+structure PGInv (s : PGState ℝ) : Prop where
+  planar : s.Planar
+  area : 0 < s.area
+  perimeter : 0 < s.perimeter
 
 theorem pg_rescale_sim (s : PGState ℝ) {k : ℝ} (hk : 0 < k) : PGSim s (s.rescale k) := by
   refine ⟨rfl, k, V3.zero, hk, ?_⟩
@@ -754,46 +760,66 @@ theorem pg_setCentroid_sim (s : PGState ℝ) (cur c : V3 ℝ) : PGSim s (s.setCe
   apply List.map_congr_left
   intro v _; cases v; ext <;> simp
 
-theorem pgApply_step (s : PGState ℝ) (op : PGOp) (hop : op.ValidAt s) (h : s.Planar) :
-    (pgApply s op).Planar ∧ PGSim s (pgApply s op) := by
+theorem pg_rescale_inv (s : PGState ℝ) {k : ℝ} (hk : 0 < k) (h : PGInv s) : PGInv (s.rescale k) := by
+  refine ⟨pg_rescale_planar s k h.planar, ?_, ?_⟩
+  · show 0 < Poly2.area (s.verts.map (V3.smul k)) s.normal
+    rw [area_smul]; have := h.area; unfold PGState.area at this; positivity
+  · show 0 < Poly2.perimeter (s.verts.map (V3.smul k))
+    rw [perimeter_smul hk.le]; have := h.perimeter; unfold PGState.perimeter at this; positivity
+
+theorem pg_setCentroid_inv (s : PGState ℝ) (cur c : V3 ℝ) (h : PGInv s) : PGInv (s.setCentroid cur c) := by
+  refine ⟨pg_setCentroid_planar s cur c h.planar, ?_, ?_⟩
+  · show 0 < Poly2.area (s.verts.map (· + (c - cur))) s.normal
+    rw [area_translate]; exact h.area
+  · show 0 < Poly2.perimeter (s.verts.map (· + (c - cur)))
+    rw [perimeter_translate]; exact h.perimeter
+
+theorem pgApply_step (s : PGState ℝ) (op : PGOp) (hop : op.Valid) (h : PGInv s) :
+    PGInv (pgApply s op) ∧ PGSim s (pgApply s op) := by
   unfold pgApply pgStep
   cases op with
   | setArea v =>
     simp only [PGState.setArea]
     cases hk : setterFactor 2 s.area v with
     | error e => simpa [hk, bind, Except.bind] using ⟨h, pgSim_refl s⟩
-    | ok k => simpa [hk, bind, Except.bind, pure, Except.pure] using
-        (⟨pg_rescale_planar s k h, pg_rescale_sim s (setterFactor_pos hop hk)⟩ : _ ∧ _)
+    | ok k =>
+      have hk0 := setterFactor_pos h.area hk
+      simpa [hk, bind, Except.bind, pure, Except.pure] using
+        (⟨pg_rescale_inv s hk0 h, pg_rescale_sim s hk0⟩ : _ ∧ _)
   | setPerimeter v =>
     simp only [PGState.setPerimeter]
     cases hk : setterFactor 1 s.perimeter v with
     | error e => simpa [hk, bind, Except.bind] using ⟨h, pgSim_refl s⟩
-    | ok k => simpa [hk, bind, Except.bind, pure, Except.pure] using
-        (⟨pg_rescale_planar s k h, pg_rescale_sim s (setterFactor_pos hop hk)⟩ : _ ∧ _)
+    | ok k =>
+      have hk0 := setterFactor_pos h.perimeter hk
+      simpa [hk, bind, Except.bind, pure, Except.pure] using
+        (⟨pg_rescale_inv s hk0 h, pg_rescale_sim s hk0⟩ : _ ∧ _)
   | setRadius cur v =>
     simp only [PGState.setRadius]
     cases hk : setterFactor 1 cur v with
     | error e => simpa [hk, bind, Except.bind] using ⟨h, pgSim_refl s⟩
-    | ok k => simpa [hk, bind, Except.bind, pure, Except.pure] using
-        (⟨pg_rescale_planar s k h, pg_rescale_sim s (setterFactor_pos hop hk)⟩ : _ ∧ _)
-  | setCentroid cur c => exact ⟨pg_setCentroid_planar s cur c h, pg_setCentroid_sim s cur c⟩
+    | ok k =>
+      have hk0 := setterFactor_pos hop hk
+      simpa [hk, bind, Except.bind, pure, Except.pure] using
+        (⟨pg_rescale_inv s hk0 h, pg_rescale_sim s hk0⟩ : _ ∧ _)
+  | setCentroid cur c => exact ⟨pg_setCentroid_inv s cur c h, pg_setCentroid_sim s cur c⟩
   | toHoomd c0 c1 =>
-    exact ⟨pg_setCentroid_planar _ c1 c0 (pg_setCentroid_planar s c0 V3.zero h),
+    exact ⟨pg_setCentroid_inv _ c1 c0 (pg_setCentroid_inv s c0 V3.zero h),
       pgSim_trans (pg_setCentroid_sim s c0 V3.zero) (pg_setCentroid_sim _ c1 c0)⟩
 
-/-- **C03 / C08 (Polygon, ConvexPolygon): every history of mutations is one similarity
-`v ↦ k·v + t`, `k > 0`, of the vertex list, the stored normal is never touched and stays
-perpendicular to the polygon** — so a fresh polygon built from the current vertices and the
-stored normal has the same plane; nothing else is stored. -/
-theorem pg_history (s : PGState ℝ) (ops : List PGOp) (h : s.Planar) (hv : PGValidRun s ops) :
-    (pgRun s ops).Planar ∧ PGSim s (pgRun s ops) := by
+/-- **C03 / C08 (Polygon, ConvexPolygon): every history of mutations, of any length, is one
+similarity `v ↦ k·v + t`, `k > 0`, of the vertex list; the stored normal is never touched and
+stays perpendicular to the polygon; area and perimeter stay positive** — so a fresh polygon built
+from the current vertices and the stored normal has the same plane; nothing else is stored. -/
+theorem pg_history (s : PGState ℝ) (ops : List PGOp) (hops : ∀ op ∈ ops, op.Valid) (h : PGInv s) :
+    PGInv (pgRun s ops) ∧ PGSim s (pgRun s ops) := by
   unfold pgRun
   induction ops generalizing s with
   | nil => exact ⟨h, pgSim_refl s⟩
   | cons op ops ih =>
     simp only [List.foldl_cons]
-    obtain ⟨hp, hs⟩ := pgApply_step s op hv.1 h
-    obtain ⟨hp', hs'⟩ := ih (pgApply s op) hp hv.2
+    obtain ⟨hp, hs⟩ := pgApply_step s op (hops op List.mem_cons_self) h
+    obtain ⟨hp', hs'⟩ := ih (pgApply s op) (fun o ho => hops o (List.mem_cons_of_mem _ ho)) hp
     exact ⟨hp', pgSim_trans hs hs'⟩
 
 /-- **`Polygon.to_hoomd`** restores the vertices exactly and hands out `v − c` -/
@@ -824,59 +850,54 @@ def spgApply (s : SPGState ℝ) (op : SPGOp) : SPGState ℝ :=
 
 def spgRun (s : SPGState ℝ) (ops : List SPGOp) : SPGState ℝ := ops.foldl spgApply s
 
+/-- non-degenerate core polygon in the plane of its normal, non-negative rounding radius -/
 structure SPGInv (s : SPGState ℝ) : Prop where
-  planar : s.core.Planar
+  core : PGInv s.core
   radius : 0 ≤ s.radius
 
-def SPGOp.ValidAt (s : SPGState ℝ) : SPGOp → Prop
-  | .setArea _ => 0 < s.area
-  | .setPerimeter _ => 0 < s.perimeter
-  | _ => True
+theorem SPGInv.area_pos {s : SPGState ℝ} (h : SPGInv s) : 0 < s.area := spg_area_pos s h.core.area h.radius
+theorem SPGInv.perimeter_pos {s : SPGState ℝ} (h : SPGInv s) : 0 < s.perimeter :=
+  spg_perimeter_pos s h.core.perimeter h.radius
 
-def SPGValidRun : SPGState ℝ → List SPGOp → Prop
-  | _, [] => True
-  | s, op :: ops => op.ValidAt s ∧ SPGValidRun (spgApply s op) ops
-
-theorem spg_rescale_inv (s : SPGState ℝ) {k : ℝ} (hk : 0 ≤ k) (h : SPGInv s) :
+theorem spg_rescale_inv (s : SPGState ℝ) {k : ℝ} (hk : 0 < k) (h : SPGInv s) :
     SPGInv ⟨s.core.rescale k, s.radius * k⟩ :=
-  ⟨pg_rescale_planar s.core k h.planar, mul_nonneg h.radius hk⟩
+  ⟨pg_rescale_inv s.core hk h.core, mul_nonneg h.radius hk.le⟩
 
-theorem spgApply_inv (s : SPGState ℝ) (op : SPGOp) (hop : op.ValidAt s) (h : SPGInv s) :
-    SPGInv (spgApply s op) := by
+theorem spgApply_inv (s : SPGState ℝ) (op : SPGOp) (h : SPGInv s) : SPGInv (spgApply s op) := by
   unfold spgApply spgStep
   cases op with
   | setRadius v =>
     simp only
     by_cases hv : 0 ≤ v
-    · rw [spg_setRadiusAbs_ok s hv]; exact ⟨h.planar, hv⟩
-    · have : ¬ (lit 0 : ℝ) ≤ v := by simpa [Scalar.lit] using hv
-      unfold SPGState.setRadiusAbs; rw [if_neg this]; exact h
+    · rw [spg_setRadiusAbs_ok s hv]; exact ⟨h.core, hv⟩
+    · rw [spg_setRadiusAbs_bad s hv]; exact h
   | setArea v =>
     simp only [SPGState.setArea]
     cases hk : setterFactor 2 s.area v with
     | error e => simpa [hk, bind, Except.bind] using h
     | ok k =>
-      have hk0 := (setterFactor_pos hop hk).le
-      simpa [hk, bind, Except.bind, spg_rescale_ok s hk0 h.radius] using spg_rescale_inv s hk0 h
+      have hk0 := setterFactor_pos h.area_pos hk
+      simpa [hk, bind, Except.bind, spg_rescale_ok s hk0.le h.radius] using spg_rescale_inv s hk0 h
   | setPerimeter v =>
     simp only [SPGState.setPerimeter]
     cases hk : setterFactor 1 s.perimeter v with
     | error e => simpa [hk, bind, Except.bind] using h
     | ok k =>
-      have hk0 := (setterFactor_pos hop hk).le
-      simpa [hk, bind, Except.bind, spg_rescale_ok s hk0 h.radius] using spg_rescale_inv s hk0 h
-  | toHoomd c0 c0' => exact ⟨pg_setCentroid_planar s.core c0' c0 h.planar, h.radius⟩
+      have hk0 := setterFactor_pos h.perimeter_pos hk
+      simpa [hk, bind, Except.bind, spg_rescale_ok s hk0.le h.radius] using spg_rescale_inv s hk0 h
+  | toHoomd c0 c0' => exact ⟨pg_setCentroid_inv s.core c0' c0 h.core, h.radius⟩
 
-/-- **C03 (ConvexSpheropolygon): every history keeps the rounding radius non-negative and the
-core polygon in the plane of its stored normal** (the class stores nothing else). -/
-theorem spg_history (s : SPGState ℝ) (ops : List SPGOp) (h : SPGInv s) (hv : SPGValidRun s ops) :
-    SPGInv (spgRun s ops) := by
+/-- **C03 (ConvexSpheropolygon): every history of rounding-radius / area / perimeter assignments
+and `to_hoomd` calls, of any length, keeps the rounding radius non-negative and the core polygon
+non-degenerate in the plane of its stored normal** (the class stores nothing else); no hypothesis
+on the operations: a size setter can only raise at its own guard, before anything is modified. -/
+theorem spg_history (s : SPGState ℝ) (ops : List SPGOp) (h : SPGInv s) : SPGInv (spgRun s ops) := by
   unfold spgRun
   induction ops generalizing s with
   | nil => simpa using h
   | cons op ops ih =>
     simp only [List.foldl_cons]
-    exact ih (spgApply s op) (spgApply_inv s op hv.1 h) hv.2
+    exact ih (spgApply s op) (spgApply_inv s op h)
 
 /-- **`ConvexSpheropolygon.to_hoomd` as it is**: both reads of the core's centroid getter see the
 same vertices, so the "move back" is the identity — the state is unchanged — but the vertices
@@ -1007,11 +1028,37 @@ theorem exPG_planar : exPG.Planar := by
   simp only [exPG, List.mem_cons, List.not_mem_nil, or_false] at hv hw
   rcases hv with rfl | rfl | rfl <;> rcases hw with rfl | rfl | rfl <;> simp [exPG, V3.dot]
 
-example : exPG.Planar ∧ PGValidRun exPG [.setRadius 1 3, .setCentroid ⟨0, 0, 0⟩ ⟨2, 2, 0⟩] :=
-  ⟨exPG_planar, one_pos, trivial, trivial⟩
+theorem exPG_inv : PGInv exPG := by
+  refine ⟨exPG_planar, ?_, ?_⟩
+  · show 0 < Poly2.area exPG.verts exPG.normal
+    have : Poly2.area exPG.verts exPG.normal = 1 / 2 := by
+      simp only [Poly2.area, Poly2.signedArea, Poly2.argmax3, Poly2.rotl, exPG, Scalar.abs_real, abs_zero, abs_one,
+        lt_irrefl, zero_lt_one, if_true, if_false, V3.norm, V3.normSq, V3.dot]
+      norm_num [V3.get, Scalar.lit]
+    rw [this]; norm_num
+  · show 0 < Poly2.perimeter exPG.verts
+    have h0 := perimeter_nonneg exPG.verts
+    rcases lt_or_eq_of_le h0 with h | h
+    · exact h
+    · exfalso
+      have : Poly2.perimeter exPG.verts = 1 + Real.sqrt 2 + 1 := by
+        simp only [Poly2.perimeter, Poly2.rotl, exPG, V3.norm, V3.normSq, V3.dot]
+        norm_num [Scalar.lit]
+        ring
+      rw [this] at h
+      have := Real.sqrt_nonneg 2
+      linarith
 
-example : SPGInv ⟨exPG, 1 / 2⟩ ∧ SPGValidRun ⟨exPG, 1 / 2⟩ [.setRadius 0, .toHoomd ⟨0, 0, 0⟩ ⟨0, 0, 0⟩] :=
-  ⟨⟨exPG_planar, by norm_num⟩, trivial, trivial, trivial⟩
+example : PGInv exPG ∧ ∀ op ∈ [PGOp.setArea 2, .setRadius 1 3, .setCentroid ⟨0, 0, 0⟩ ⟨2, 2, 0⟩], op.Valid := by
+  refine ⟨exPG_inv, ?_⟩
+  intro op hop
+  simp only [List.mem_cons, List.not_mem_nil, or_false] at hop
+  rcases hop with rfl | rfl | rfl
+  · trivial
+  · exact one_pos
+  · trivial
+
+example : SPGInv ⟨exPG, 1 / 2⟩ := ⟨exPG_inv, by norm_num⟩
 
 example : SPHInv ⟨exState, 1 / 2⟩ ∧ ∀ op ∈ [SPHOp.setSize 3 1 8, .setRadius 0, .toHoomd], op.Valid := by
   refine ⟨⟨exState_inv2, by norm_num⟩, ?_⟩
